@@ -1,5 +1,5 @@
 """C18 -- secp256k1 point arithmetic equals the textbook group law."""
-from .. import constants, euclid, grouptrace
+from .. import constants, curvemachine, euclid, grouptrace
 from . import c07
 
 
@@ -8,3 +8,7 @@ def run(ctx):
     grouptrace.run_traces(ctx, ["secp"])        # full size: dlog tracking mod N (BigNat), negative and 512-bit scalars
     c07.curve_tables(ctx, secp=True, name="CurveTable_secp")
     euclid.euclid_checks(ctx, which=("secp",))      # the inversion loop behind from_jacobian, step by step
+    # group laws on all register files of secp-shaped toy curves; TLC programs (negative and large scalars) replayed
+    # into the plain and the Jacobian API of a private secp256k1 copy
+    curvemachine.run_exhaustive(ctx, only_secp=True)
+    curvemachine.run_machine(ctx, only_secp=True)
